@@ -9,6 +9,10 @@ From Coq Require Import String.
 From Coq Require Import NArith ZArith List Bool.
 Import ListNotations.
 From PV Require Import Yanny.Bytes Yanny.Types.
+(* round 5: ONE switch of the reader model follows the source -- whether isenum() removes comments from an enum block
+   before splitting it into labels (fixes/C02-enum-block-comments.diff).  translate/c01.py regenerates the flag
+   yanny_enum_strips_comments from yanny.py on every run (Require without Import: YannyLits opens string_scope). *)
+From PV Require Generated.YannyLits.
 Open Scope N_scope.
 
 Definition KW_TYPEDEF : bytes := Eval compute in bs "typedef"%string.
@@ -295,11 +299,22 @@ Fixpoint split_commas (skipping : bool) (cur : bytes) (s : bytes) : list bytes :
                else if c =? COMMA then rev cur :: split_commas true [] s'
                else split_commas false (c :: cur) s'
   end.
-Definition enum_entry (text : bytes) : option (bytes * list bytes) :=
+(* re.sub(r'#[^\n]*', '', body): a comment runs from the hash to the end of its line (the newline stays) *)
+Fixpoint drop_hash_comments (skipping : bool) (s : bytes) : bytes :=
+  match s with
+  | [] => []
+  | c :: s' => if skipping then (if c =? NL then c :: drop_hash_comments false s' else drop_hash_comments true s')
+               else if c =? HASH then drop_hash_comments true s' else c :: drop_hash_comments false s'
+  end.
+Definition enum_body_of (strips : bool) (body : bytes) : bytes := if strips then drop_hash_comments false body else body.
+Definition enum_entry_g (strips : bool) (text : bytes) : option (bytes * list bytes) :=
   match match_typedef KW_ENUM text with
-  | Some (_, body, name, _) => Some (name, split_commas false [] (strip body))
+  | Some (_, body, name, _) => Some (name, split_commas false [] (strip (enum_body_of strips body)))
   | None => None
   end.
+(* the reader of the CURRENT source *)
+Definition enum_entry (text : bytes) : option (bytes * list bytes) :=
+  enum_entry_g PV.Generated.YannyLits.yanny_enum_strips_comments text.
 (* dict semantics: the last definition of a name wins *)
 Fixpoint assoc_last {A} (k : bytes) (l : list (bytes * A)) : option A :=
   match l with
